@@ -2,6 +2,7 @@ package main
 
 import (
 	"encoding/json"
+	"time"
 )
 
 // shrinkJSON is the driver-side shrinker for failures rapid cannot shrink (worker death, hangs).
@@ -16,12 +17,17 @@ func (d *driver) shrinkJSON(c json.RawMessage, o outcome, cfg tierCfg, crashed b
 	if d.tier == "thorough" {
 		budget = 200
 	}
+	if o.Clause == "hang" {
+		// every candidate would cost a full deadline: the journaled case is reported as it is
+		return c, o
+	}
+	deadline := time.Now().Add(3 * time.Minute)
 	rep := 1
 	if !crashed {
 		rep = cfg.ReplayRepeat
 	}
 	try := func(cand interface{}) bool {
-		if budget <= 0 {
+		if budget <= 0 || time.Now().After(deadline) {
 			return false
 		}
 		budget--
@@ -29,7 +35,7 @@ func (d *driver) shrinkJSON(c json.RawMessage, o outcome, cfg tierCfg, crashed b
 		if err != nil {
 			return false
 		}
-		nf, _, ro, _, _ := d.replayCase(b, rep, cfg.timeout(), "shrink")
+		nf, _, ro, _, _ := d.replayCase(b, rep, shortTimeout(cfg), "shrink")
 		if nf > 0 && ro != nil && ro.Clause == o.Clause {
 			o = *ro
 			return true
@@ -143,4 +149,14 @@ func deepCopy(v interface{}) interface{} {
 		return o
 	}
 	return v
+}
+
+// shortTimeout bounds a single confirmation / shrink replay: long enough for any real case, far
+// below the per-shard deadline.
+func shortTimeout(cfg tierCfg) time.Duration {
+	t := cfg.timeout()
+	if t > 3*time.Minute {
+		t = 3 * time.Minute
+	}
+	return t
 }
